@@ -257,6 +257,8 @@ def main():
         return chk.finish()
 
     base = vlib.scratch("verif-c12-")
+    # the implementation cache may be pruned by a concurrent check: run private copies of the binaries
+    exe = shutil.copy2(exe, os.path.join(base, "harness-bin")); shim = shutil.copy2(shim, os.path.join(base, "shim-bin"))
     plan = [({0}, "metaflush", {}), ({1}, "metaflush", {}), ({0, 2}, "metaflush", {}), ({1, 3}, "close", {}),
             ({0, 1, 3}, "flush", {}), ({0, 1, 2, 3}, "metaflush", {}), ({0, 1, 2, 3}, "sync", {1: 160}),
             ({2}, "rewrite:2", {}), ({1}, "rewriteall", {}), ({0, 3}, "close", {0: 330, 3: 170}),
